@@ -1,5 +1,38 @@
+//go:build amd64
+// +build amd64
+
 package main
 
 import "github.com/akalin/gopar/gf2p16"
 
 func setSSSE3(v bool) bool { return gf2p16.VerifSetSSSE3(v) }
+
+// register-level SSSE3 entry points: c09r <op> <c> <hex of the input registers>
+func reg16(b []byte) (r [16]byte) { copy(r[:], b); return }
+
+func c09r(w []string) string {
+	return guard(func() string {
+		c := gf2p16.T(atoi(w[1]))
+		b := []byte(unhex(w[2]))
+		switch w[0] {
+		case "s2a":
+			lo, hi := gf2p16.VerifStandardToAltMap(reg16(b[0:16]), reg16(b[16:32]))
+			return hx(string(lo[:]) + string(hi[:]))
+		case "a2s":
+			o0, o1 := gf2p16.VerifAltToStandardMap(reg16(b[0:16]), reg16(b[16:32]))
+			return hx(string(o0[:]) + string(o1[:]))
+		case "mulalt":
+			lo, hi := gf2p16.VerifMulAltMap(c, reg16(b[0:16]), reg16(b[16:32]))
+			return hx(string(lo[:]) + string(hi[:]))
+		case "mulstd":
+			o0, o1 := gf2p16.VerifMulSSSE3(c, reg16(b[0:16]), reg16(b[16:32]))
+			return hx(string(o0[:]) + string(o1[:]))
+		case "muladd":
+			o0, o1 := gf2p16.VerifMulAndAddSSSE3(c, reg16(b[0:16]), reg16(b[16:32]), reg16(b[32:48]), reg16(b[48:64]))
+			return hx(string(o0[:]) + string(o1[:]))
+		}
+		panic("c09r: bad op")
+	})
+}
+
+func init() { extraDispatch["c09r"] = c09r }
